@@ -4,3 +4,4 @@ from . import rtc  # noqa: F401
 from . import faults  # noqa: F401
 from . import asynceq  # noqa: F401
 from . import concurrent  # noqa: F401
+from . import storage  # noqa: F401
